@@ -33,7 +33,7 @@ def bool? (s : Sexp) : Option Bool := s.asBool?
 
 def cell? : Sexp → Option Cell
   | .list [.atom "i", i] => i.asInt?.map .int
-  | .list [.atom "s", n, m, e] => do pure (.sci (← bool? n) (← m.asNat?) (← e.asInt?))
+  | .list [.atom "s", n, d, m, e] => do pure (.sci (← bool? n) (← d.asNat?) (← m.asNat?) (← e.asInt?))
   | .list [.atom "f", n, ip, k, fp] => do pure (.fix (← bool? n) (← ip.asNat?) (← k.asNat?) (← fp.asNat?))
   | .list [.atom "l", .atom s] => some (.label s.toList)
   | _ => none
@@ -63,6 +63,7 @@ def sExtValue : Except Err ExtValue → Sexp
 def sMatrix (m : Matrix) : Sexp := .list [.atom "m", sStrs m.index, sStrs m.cols, sRows m.rows]
 
 def views (t : Table) : Sexp :=
+  if t.raw.mixed && t.kind != .generic then .list [.atom "mixed"] else
   match t.kind with
   | .generic => .list [.atom "generic"]
   | .ext =>
@@ -92,16 +93,21 @@ def handle (req : Sexp) : Sexp :=
       | .error e => sErr e
       | .ok ts => .list (ts.map (fun t => .list [.atom "tbl", sMeta t.info, sFrame t.raw, views t]))
     | _, _, _ => bad
-  | .list [.atom "renderbody", .list ns, .list cs, .list rs] =>
-    match ns.mapM str?, cs.mapM col?, rs.mapM (fun r => r.asList?.bind (·.mapM cell?)) with
-    | some ns, some cs, some rs =>
-      let t : RefTable := ⟨ns, cs, rs⟩
+  | .list [.atom "renderbody", hw, .list ns, .list cs, .list rs] =>
+    match hw.asNat?, ns.mapM str?, cs.mapM col?, rs.mapM (fun r => r.asList?.bind (·.mapM cell?)) with
+    | some hw, some ns, some cs, some rs =>
+      let t : RefTable := ⟨hw, ns, cs, rs⟩
       .list [sStrs (renderBody t), Sexp.ofBool t.fits]
-    | _, _, _ => bad
-  | .list [.atom "rendertitle", n, .atom m, d, g, .list nums] =>
-    match n.asNat?, optStr? d, optStr? g, nums.mapM Sexp.asNat? with
-    | some n, some d, some g, some nums => sStr (renderTitle ⟨n, m.toList, d, g, nums⟩)
     | _, _, _, _ => bad
+  | .list [.atom "rendertitle", w, n, .atom m, d, g, .list nums] =>
+    match w.asNat?, n.asNat?, optStr? d, optStr? g, nums.mapM Sexp.asNat? with
+    | some w, some n, some d, some g, some nums =>
+      sStr (renderTitleNo w n ++ renderTitleRest ⟨m.toList, d, g, nums⟩)
+    | _, _, _, _, _ => bad
+  | .list [.atom "rendertitleno", w, n] =>
+    match w.asNat?, n.asNat? with
+    | some w, some n => sStr (renderTitleNo w n)
+    | _, _ => bad
   | .list [.atom "cell", c] =>
     match cell? c with
     | some c => .list [sStr (renderCell c),
